@@ -664,3 +664,38 @@ Lemma resolve_is_gen fz o2 pfuel gh ps root path nosym nf :
   opath_resolve_root fz o2 pfuel gh ps root path nosym nf =
   resolve_gen fz ps (check_current fz o2 pfuel gh) root path nosym nf.
 Proof. reflexivity. Qed.
+
+(* ---- single-entry operations: which (parent object, name) they act on ---------------- *)
+From PV Require Import RootM ProgTac OpsProofs.
+
+Lemma run_peq {A} s (p q : prog A) : peq p q -> forall t, run s t p = run s t q.
+Proof.
+  induction 1 as [a|c k k' _ IH|x|]; intro t; cbn [run]; try reflexivity.
+  destruct (answer s t c) as [t' r]. apply IH.
+Qed.
+
+(* RootRef::resolve_parent + name on the emulated backend, on a static tree: the
+   descriptor the *at call will be made on is open on exactly the object the pure
+   walk of the prefix ends on; the name is path_split's last component *)
+Theorem parent_and_name_static s fz o2 pfuel gh ps df rs t root path dirp name :
+  fz <> 0%nat -> chk_static_ok s (check_current fz o2 pfuel gh) -> FSProofs.wf s df -> links_ok s ->
+  rs_kernel rs = false ->
+  path_split path = Some (Ok (dirp, Some name)) -> has_nul dirp = false ->
+  tget t root = Some ROOT ->
+  match FSModel.ewalk s dirp false (has (rs_flags rs) RESOLVE_NO_SYMLINKS) with
+  | FSModel.WOk o => exists t' fd, run s t (parent_and_name fz o2 pfuel gh ps rs root path) = Done t' (Ok (fd, name)) /\ tget t' fd = Some o
+  | FSModel.WErr n => exists t', run s t (parent_and_name fz o2 pfuel gh ps rs root path) = Done t' (Err (OsError n))
+  | FSModel.WBudget => exists t', run s t (parent_and_name fz o2 pfuel gh ps rs root path) = Done t' (Err (OsError ELOOP))
+  end.
+Proof.
+  intros Hfz Hchk Hwf Hl Hk Hsplit Hnul Hroot.
+  pose proof (parent_and_name_shape fz o2 pfuel gh ps rs root path) as Hshape. rewrite Hsplit in Hshape.
+  destruct Hshape as (Hpeq & _ & _).
+  rewrite (run_peq s _ _ Hpeq t). unfold bindR. rewrite (run_bind s).
+  unfold r_resolve. rewrite Hk, resolve_is_gen.
+  pose proof (resolve_static s fz Hfz _ Hchk df Hwf Hl ps (has (rs_flags rs) RESOLVE_NO_SYMLINKS) false t root dirp Hroot Hnul) as H.
+  destruct (FSModel.ewalk s dirp false (has (rs_flags rs) RESOLVE_NO_SYMLINKS)) as [o|n|].
+  - destruct H as (t' & fd & -> & Hfd). exists t', fd. split; [reflexivity|exact Hfd].
+  - destruct H as (t' & ->). exists t'. reflexivity.
+  - destruct H as (t' & ->). exists t'. reflexivity.
+Qed.
